@@ -152,7 +152,9 @@ def order(
                 all_tasks = False
                 # Put non-tasks at the very end since they are merely aliases
                 # and have no impact on performance at all
-                prio = len(dsk) - 1 - n_removed_leaves
+                # ``dsk`` shrinks while leaves are removed, so count down
+                # from the original number of (non-external) keys
+                prio = expected_len - len(external_keys) - 1 - n_removed_leaves
                 if return_stats:
                     result[leaf] = Order(prio, -1)
                 else:
